@@ -28,7 +28,9 @@ RANGE_TABLE = {
                                  "witnesses: single-edge graph, optimum 1 = |E|; pairwise incompatible subset constraints need a walk each",
                                  ["len(self.subset_constraints)"]),
     "MinGenSet.solve": (["len(self.initial_numbers)", "len(self.numbers)"], 1,
-                        "the prefix-difference multiset always generates; witness numbers=[3], total=10 needs {3,7} = len+1", []),
+                        "the prefix-difference multiset always generates; witness numbers=[3], total=10 needs {3,7} = len+1; a partition constraint with t parts "
+                        "can force t - 1 further elements (witness [5], total 10, constraint [1,2,3,4]: 4 elements)",
+                        ["re:^sum\\(\\(?len\\((\\w+)\\) - 1 for \\1 in \\(?self\\.partition_constraints( or \\[\\])?\\)?\\)?\\)$"]),
 }
 
 
@@ -105,6 +107,16 @@ def range_rule(prog: Program, rep, RID: str, cname: str, mname: str):
                     hi = _S().visit(hi)
     canonical = atoms[-1]
     need = Poly.atom(canonical) + Poly.const(extra + 1)          # exclusive bound must be >= K + 1
+    # a required summand given as a pattern stands for whatever atom of the bound matches it (a fresh atom if none does)
+    plus_ = []
+    for a in plus:
+        if a.startswith("re:"):
+            found = [x for x in to_poly(hi).atoms() | {y for n_ in ast.walk(hi) if isinstance(n_, ast.Call) and dotted(n_.func) in ("max", "min")
+                                                       for arg in n_.args for y in to_poly(arg).atoms()} if re.match(a[3:], x)]
+            plus_.append(found[0] if found else "<" + why.split(";")[-1].strip()[:40] + ">")
+        else:
+            plus_.append(a)
+    plus = plus_
     for a in plus:
         need = need + Poly.atom(a)
     r = dominates(hi, need, atoms, plus)
